@@ -11,6 +11,7 @@ VERIF = os.path.dirname(os.path.dirname(os.path.abspath(__file__)))
 REPO = os.environ.get('SOURCER_REPO', '/repo')
 LEAN = os.path.join(VERIF, 'lean')
 DRIVER = os.path.join(LEAN, '.lake', 'build', 'bin', 'driver')
+XDRIVER = os.path.join(LEAN, '.lake', 'build', 'bin', 'xdriver')
 EVIDENCE = os.path.join(VERIF, 'evidence')
 REPLAYS = os.path.join(VERIF, 'replays')
 GUARD = 'SOURCER_VERIF'
@@ -66,10 +67,11 @@ class time_limit:
 class Driver:
     """The compiled Lean driver behind a line protocol."""
 
-    def __init__(self, flag_bits=None):
-        if not os.path.exists(DRIVER):
-            raise RuntimeError('driver not built: ' + DRIVER)
-        self.p = subprocess.Popen([DRIVER], stdin=subprocess.PIPE, stdout=subprocess.PIPE,
+    def __init__(self, flag_bits=None, exe=None):
+        exe = exe or DRIVER
+        if not os.path.exists(exe):
+            raise RuntimeError('driver not built: ' + exe)
+        self.p = subprocess.Popen([exe], stdin=subprocess.PIPE, stdout=subprocess.PIPE,
                                   text=True, bufsize=1)
         if flag_bits is not None:
             r = self.ask('(flags ' + ' '.join('1' if b else '0' for b in flag_bits) + ')')
